@@ -260,7 +260,8 @@ theorem periodic_vs_open_direction (tol : K) (htol : 0 < tol) (c1 c2 : Bool) (p1
             max (raisedMult (max p1 p2 - p1) e.2.1) (raisedMult (max p1 p2 - p2) e.2.2))))
       ∧ r.2.basis i = r.1.basis i
       ∧ SameMap m a.1 r.1 ∧ SameMapOn m i a.2 r.2
-      ∧ (∀ j : Fin m, j ≠ i → r.1.basis j = a.1.basis j ∧ r.2.basis j = a.2.basis j) := by
+      ∧ (∀ j : Fin m, j ≠ i → r.1.basis j = a.1.basis j ∧ r.2.basis j = a.2.basis j)
+      ∧ C06.WF r.1 m ∧ C06.WF r.2 m := by
   obtain ⟨o2, hl, hwo2, hson, _, _, _, _, hoth⟩ :=
     lowerPeriodic_sameMapOn hw2 i k hk hguard hseam (-1) (le_refl _) (by omega)
   have hper1 : (a.1.basis i).periodic = -1 := by rw [hb1]; rfl
@@ -269,7 +270,7 @@ theorem periodic_vs_open_direction (tol : K) (htol : 0 < tol) (c1 c2 : Bool) (p1
     have hlt : (a.1.basis i).periodic < (a.2.basis i).periodic := by rw [hper1, hk]; omega
     simp only [hlt, if_true]
     rw [hper1, hl]
-  obtain ⟨c, r, _, hSO, hSM, hr1, hr2, hs1, hs2, hkr⟩ :=
+  obtain ⟨c, r, _, hSO, hSM, hr1, hr2, hs1, hs2, hkr, hwr1, hwr2⟩ :=
     open_direction_any_order tol htol c1 c2 p1 p2 hp1 hp2 x0 xl L hsep i hi (a.1, o2) hw1 hwo2 hb1 (hb2 o2 hl)
       H_raise₁ (fun h => H_raise₂ h o2 hl)
   have hp1' : 1 ≤ max p1 p2 := le_trans (by omega : 1 ≤ p1) (le_max_left _ _)
@@ -278,7 +279,7 @@ theorem periodic_vs_open_direction (tol : K) (htol : 0 < tol) (c1 c2 : Bool) (p1
       clamped_stop _ hp1' x0 xl _ _ (by simp), clamped_stop p2 (by omega) x0 xl _ _ (by simp)]
     exact ⟨rfl, rfl⟩
   exact ⟨(a.1, o2), c, r, hSP, rfl, hl, hSO, hSM, hr1, hr2, hs1, hson.trans (hs2.on i hdom2.1 hdom2.2),
-    fun j hj => ⟨(hkr j hj).1, ((hkr j hj).2).trans (hoth j hj)⟩⟩
+    fun j hj => ⟨(hkr j hj).1, ((hkr j hj).2).trans (hoth j hj)⟩, hwr1, hwr2⟩
 
 end C12
 
